@@ -12,6 +12,10 @@ Fixpoint le_val (bs : list N) : N :=
   match bs with [] => 0 | b :: r => b + 256 * le_val r end.
 Definition nbytes (bits : N) : nat := N.to_nat (bits / 8).
 
+(* a generous cap on element counts so that the model terminates on hostile counts of zero-sized elements;
+   the checks never feed it more (DESIGN.md: within_limits) *)
+Definition max_count : N := 2000000.
+
 (* ---------- M : value -> bytes, at a type ---------- *)
 Fixpoint index_of (i : N) (ts : list (N * ty)) (k : N) : option (N * ty) :=
   match ts with [] => None | (j, t) :: r => if i =? j then Some (k, t) else index_of i r (k + 1) end.
@@ -34,7 +38,7 @@ Fixpoint enc_val (E : env) (v : val) (t : ty) {struct v} : option (list N) :=
         match prim_bits p with Some (true, b) => if (bits =? b) then Some (le_bytes (nbytes b) (Z.to_N (z mod 2 ^ Z.of_N b))) else None | _ => None end
     | VFloat 32 x, TPrim PFloat32 => Some (le_bytes 4 x)
     | VFloat 64 x, TPrim PFloat64 => Some (le_bytes 8 x)
-    | VText bs, TPrim PText => Some (enc_u (N.of_nat (length bs)) ++ bs)
+    | VText bs, TPrim PText => if N.of_nat (length bs) <? 2 ^ 64 then Some (enc_u (N.of_nat (length bs)) ++ bs) else None
     | VOpt None, TOpt _ => Some [0]
     | VOpt (Some w), TOpt t1 => match enc_val E w t1 with Some b => Some (1 :: b) | None => None end
     | VVec vs, TVec t1 =>
@@ -43,7 +47,7 @@ Fixpoint enc_val (E : env) (v : val) (t : ty) {struct v} : option (list N) :=
            | [] => Some []
            | w :: r => match enc_val E w t1, go r with Some b, Some br => Some (b ++ br) | _, _ => None end
            end) vs with
-        | Some b => Some (enc_u (N.of_nat (length vs)) ++ b)
+        | Some b => if N.of_nat (length vs) <=? max_count then Some (enc_u (N.of_nat (length vs)) ++ b) else None
         | None => None
         end
     | VRec fs, TRec ts =>
@@ -56,12 +60,13 @@ Fixpoint enc_val (E : env) (v : val) (t : ty) {struct v} : option (list N) :=
            end) fs ts
     | VVariant i w, TVariant ts =>
         match index_of i ts 0 with
-        | Some (k, ti) => match enc_val E w ti with Some b => Some (enc_u k ++ b) | None => None end
+        | Some (k, ti) => match enc_val E w ti with Some b => if k <? 2 ^ 64 then Some (enc_u k ++ b) else None | None => None end
         | None => None
         end
     | VPrincipal bs, TPrim PPrincipal => Some (principal_bytes bs)
     | VService bs, TServ _ => Some (principal_bytes bs)
-    | VFunc bs m, TFunc _ _ _ => Some (1 :: principal_bytes bs ++ enc_u (N.of_nat (length m)) ++ m)
+    | VFunc bs m, TFunc _ _ _ =>
+        if N.of_nat (length m) <? 2 ^ 64 then Some (1 :: principal_bytes bs ++ enc_u (N.of_nat (length m)) ++ m) else None
     | _, _ => None
     end
   end.
@@ -83,9 +88,6 @@ Definition read_i64 (bs : list N) : res (Z * list N) :=
 Definition take_bytes (k : N) (bs : list N) : res (list N * list N) :=
   if k <=? N.of_nat (length bs) then Ok (firstn (N.to_nat k) bs, skipn (N.to_nat k) bs) else Err EMal.
 
-(* a generous cap on element counts so that the model terminates on hostile counts of zero-sized elements;
-   the checks never feed it more (DESIGN.md: within_limits) *)
-Definition max_count : N := 2000000.
 
 (* ---------- M^-1 : bytes -> value, at a type ---------- *)
 Definition dec_principal_bytes (bs : list N) : res (list N * list N) :=
